@@ -109,6 +109,10 @@ pub const PAYLOADS: &[&str] = &[
     "pv := 9223372036854775807\nprint(pv)\nprint(pv + 1)\n",
     "pv := [1, 2]\npv += [3]\npw := pv + []\npw[0] = 0\nprint(pv)\nprint(pw)\n",
     "pv := [1]\npw := pv\npv += [2]\nprint(pw)\nprint(pv === pw)\n",
+    "pv := 1\npw := 2\n[pv, pw] = [pw, pv]\nprint([pv, pw])\n[pv, pw] = [pw, pv + pw]\nprint([pv, pw])\n",
+    "pv := [1, 2, 3]\n[pv[0], pv[2]] = [pv[2], pv[0]]\nprint(pv)\n",
+    "pv := [0]\nprint([pv, pv])\nprint({\"a\": pv, \"b\": [pv]})\n",
+    "pv := {\"k\": 1}\npw := {\"x\": pv, \"y\": pv}\nprint(pw)\nprint(pw.x === pw.y)\n",
     "pv := \"s\"\npw := pv\npv += \"t\"\nprint(pw)\nprint(pv)\n",
     "pv := {\"l\": [1]}\npw := pv.l\npv.l += [2]\nprint(pw)\nprint(pv)\n",
     "fn pf(a) {\na += [9]\nreturn a\n}\npv := [1]\nprint(pf(pv))\nprint(pv)\n",
